@@ -12,6 +12,12 @@ import (
 )
 
 func init() {
+	props["historyx"] = prop{ // nodes outside the Coq model (MultiPartsP): judged by the fresh-rebuild oracle only
+		configs: func(tier string) []map[string]string { return []map[string]string{{}} },
+		gen:     histxGen,
+		run:     histRun,
+		shard:   1500,
+	}
 	props["history"] = prop{
 		configs: func(tier string) []map[string]string { return []map[string]string{{}, {}, {"CARAPACE_MATCH": "1"}} },
 		gen:     histGen,
@@ -109,8 +115,8 @@ func histGen(r *Rng, i int, cfg int, tier string) []string {
 	for k := 0; k < npool; k++ {
 		g := &exprGen{r: r}
 		if k < nshared { // shared static actions with messages, no-space set and several values
-			g.emit("SH", r.Pick([]string{"", "/"}), r.Pick([]string{"", "static usage"}))
-			g.emit(strList([][]string{{}, {"static msg"}, {"boom", "static msg"}}[r.Intn(3)])...)
+			g.emit(r.Pick([]string{"SH", "SH", "SHS"}), r.Pick([]string{"", "/"}), r.Pick([]string{"", "static usage"}))
+			g.emit(strList([][]string{{}, {}, {"static msg"}, {"boom", "static msg"}}[r.Intn(4)])...)
 			n := 1 + r.Intn(3)
 			vals := make([]rawSpec, n)
 			for j := range vals {
@@ -136,6 +142,22 @@ func histGen(r *Rng, i int, cfg int, tier string) []string {
 }
 
 var baseEnvs = [][]string{{}, {"HOME=/tmp", "MODE=default"}, {"MODE=a", "X=1", "MODE=b"}, {"HOME=/h", "MODE=default", "X=", "NEW=n"}}
+
+func histxGen(r *Rng, i int, cfg int, tier string) []string {
+	cf := []string{"0", "2"}
+	// pool[0]: MultiPartsP over paths with different placeholders; pool[1]: an action derived from it
+	cf = append(cf, "MPP", "V")
+	cf = append(cf, strList([][]string{{"local/<name>", "remote/<host>/<name>", "static/x"}, {"a/<x>/b", "c/<y>", "a/z"}}[r.Intn(2)])...)
+	cf = append(cf, r.Pick([]string{"X", "G", "Y"}), "s", "REF", "0")
+	nsteps := 3 + r.Intn(5)
+	for k := 0; k < nsteps; k++ {
+		cf = append(cf, strconv.Itoa(r.Intn(2)), r.Pick([]string{"", "local/", "remote/", "remote/h1/", "a/", "a/q/", "c/", "static/", "remote/h2/n"}))
+		cf = append(cf, strList(nil)...)
+		cf = append(cf, strList(nil)...)
+		cf = append(cf, strList(nil)...)
+	}
+	return cf
+}
 
 func buildPool(t []string, n int) ([]carapace.Action, []string) {
 	curPool = nil
